@@ -653,9 +653,15 @@ static void case_c13(rng_t *r, ctx_t *c) {
         for (size_t k = 0; k < ldata.n; ++k) if (ldata.ops[k].id == sigdefs[i].id) *ol_add(&per[i], OP_FSR) = ldata.ops[k];
     }
     for (int i = 0; i < nrej; ++i) {
-        int kind = (int) rng_below(r, 7);
+        int kind = (int) rng_below(r, 8);
         op_t *o;
         switch (kind) {
+            case 7: {  /* binary user data with a size but no payload pointer: jls_wr_user_data documents and checks this case
+                        * (the same call on jls_wr_annotation is a caller error outside every property: not generated) */
+                o = ol_add(&lrej, OP_USER); o->meta = (uint16_t) rng_below(r, 4096);
+                o->stype = JLS_STORAGE_TYPE_BINARY; o->dsize = (uint32_t) rng_range(r, 1, 64); o->dseed = 1; o->expect_reject = 3;
+                break;
+            }
             case 6: {  /* a signal definition with invalid parameters (FSR without sample rate / unknown data type), then data for that id */
                 struct jls_signal_def_s d; uint16_t sid = (uint16_t) rng_range(r, 1, 255);
                 int used = 0; for (int k = 0; k < sig_n; ++k) if (sig_ids[k] == sid) used = 1;
